@@ -18,6 +18,7 @@ type X struct {
 	prog     *Program
 	qn       int
 	revealed map[string]bool // opaque spec functions expanded in this function
+	argStatic []types.Type  // static types of the current call's argument expressions
 }
 
 type Target struct {
@@ -116,6 +117,12 @@ func (x *X) writeVar(st *State, obj types.Object, v Value) {
 func globalName(o *types.Var) string { return "G!" + o.Pkg().Path() + "." + o.Name() }
 
 func (x *X) readGlobal(st *State, o *types.Var) Value {
+	if b, ok := o.Type().Underlying().(*types.Basic); ok && b.Info()&(types.IsString|types.IsInteger) != 0 {
+		if k, ok := x.prog.globalInit(o); ok {
+			x.c.assumption("package-level variables initialised with a literal (key prefixes, method names) are never reassigned")
+			return constValue(k, o.Type())
+		}
+	}
 	l := layoutOf(o.Type())
 	v := Value{T: o.Type(), C: make([]*Term, len(l.Comps))}
 	for i, comp := range l.Comps {
@@ -226,6 +233,8 @@ func (x *X) bytesFromString(st *State, s Value, t types.Type) Value {
 	x.c.setInnerArr(st, tUint8, 0, r, App("str_arr", SArr(SBV(64), SBV(8)), s.S()))
 	n := App("str_len", SBV(64), s.S())
 	x.c.assume(st.pc, bvcmp("bvule", n, sliceMax))
+	// abstract content of the fresh slice is the string's byte content
+	x.c.assume(st.pc, Eq(App("bytes_of", SBytes, App("str_arr", SArr(SBV(64), SBV(8)), s.S()), BVInt(0, 64), n), App("bytes_of_str", SBytes, s.S())))
 	return mkSlice(t, r, BVInt(0, 64), n, n)
 }
 
@@ -417,8 +426,8 @@ func (x *X) specTypeOfSort(s Sort) types.Type {
 		return specType("Int")
 	case s == "OptBytes":
 		return specType("OptBytes")
-	case s == "Key":
-		return specType("Key")
+	case s == "KeyT":
+		return specType("KeyT")
 	case s == SStr:
 		return tString
 	case s.IsBV() && s.BVWidth()%8 == 0:
